@@ -353,6 +353,23 @@ class Interp:
         memo[key] = ok
         return ok
 
+    def equal_calls(self, fi, args_a, args_b, self_val=None):
+        """Does fi compute, on every trace partition, the same with the argument values `args_a` as with `args_b`
+        (parameters not listed are symbols in both)?  Both are interpreted and compared."""
+
+        def sig(args):
+            sub = Interp(self.P, policy=self.policy, array_mode=self.array_mode)
+            out = []
+            for pth in sub.run_function(fi.qualname, args=args, self_val=self_val):
+                v = pth.value
+                out.append((tuple((k, c) for k, c, _d in pth.decisions), pth.outcome, pth.exc, nf.key(sub.to_nf(v)) if v is not None and pth.outcome == "return" else None, tuple((e.data.get("attr"), nf.key(sub.to_nf(e.data["value"])) if e.kind == "store_attr" else None) for e in pth.events if e.kind in ("store_attr", "del_attr"))))
+            return sorted(out, key=repr)
+
+        try:
+            return sig(dict(args_a)) == sig(dict(args_b))
+        except (AnalysisError, nf.NFError, PathLimit, TypeError):
+            return False
+
     def _new_field_default(self, cls, attr):
         """A dataclass field with a default which the pinned field list of its class (signatures_pos.json,
         `<Class>.<fields>`) does not have is read at its default: existing users cannot have set it."""
@@ -720,6 +737,8 @@ class Interp:
         elif isinstance(it, EnumV) and isinstance(it.inner, TupV) and not it.inner.rowview:
             # enumerate(<literal sequence>): the literal pairs (k, item)
             items = [TupV([const_num(k), x]) for k, x in enumerate(it.inner.items)]
+        elif isinstance(it, StrV) and it.s != "<str-expr>":
+            items = [StrV(ch) for ch in it.s]  # a string iterates over its characters
         if items is not None and len(items) <= 12:
             for x in items:
                 self._assign(s.target, x, env, s)
@@ -1332,14 +1351,13 @@ class Interp:
             return BoolV("const", sym in ("==", "<=", ">="))
         return BoolV("cmp", an, bn, sym)
 
-    @staticmethod
-    def _maybe_none(v):
+    def _maybe_none(self, v):
         """Can this abstract value be None at run time?  Only symbolic scalars can."""
         if not isinstance(v, Num):
             return False
         a = Interp.single_atom(v.nf)
-        if a is not None and a[0] == "sym" and a[1].endswith("@option"):
-            return False  # a value an internal caller computes for a new option (options.py): not the None default
+        if a is not None and a[0] == "sym" and (a[1].endswith("@option") or a[1] in getattr(self, "not_none", ())):
+            return False  # a value an internal caller computes for a new option (options.py), or an argument the rule supplies
         return a is not None
 
     def _e_NamedExpr(self, n, env):
@@ -2358,7 +2376,12 @@ def _h_identity(it, args, kwargs, bound, node, qual):
         if qual in ("numpy.array", "numpy.copy", "copy.copy", "copy.deepcopy") and isinstance(args[0], Vec):
             return args[0].copy()  # a new array: later in-place writes do not reach the original
         if qual in ("numpy.array", "numpy.asarray", "numpy.asanyarray") and isinstance(args[0], TupV) and not args[0].arr:
-            return TupV(list(args[0].items), args[0].is_list, names=args[0].names, rowview=args[0].rowview, arr=True)
+            out = TupV(list(args[0].items), args[0].is_list, names=args[0].names, rowview=args[0].rowview, arr=True)
+            dt = kwargs.get("dtype", args[1] if len(args) > 1 else None)
+            txt = (dt.qual if isinstance(dt, ExtV) else dt.s if isinstance(dt, StrV) else "") if dt is not None else ""
+            # an array built from a list takes the common type of its entries unless a floating dtype is named
+            out.float_dtype = txt in ("float", "numpy.float64", "numpy.double", "float64", "f8", "d", "numpy.float_", "numpy.longdouble")
+            return out
         return args[0]
     return None
 
@@ -2541,6 +2564,9 @@ def _h_hasattr(it, args, kwargs, bound, node, qual):
     nm = args[1].s if len(args) > 1 and isinstance(args[1], StrV) else "?"
     if args and isinstance(args[0], Inst) and nm in args[0].attrs:
         return BoolV("const", True)
+    if args and isinstance(args[0], Inst) and nm != "?" and args[0].cls.lookup(nm) is None and nm not in args[0].cls.all_fields() and not any(nm in c.class_attrs for c in args[0].cls.mro()) and not it.P.attribute_is_stored(nm):
+        # no class of the package ever stores an attribute of that name, and the class declares none
+        return BoolV("const", False)
     return BoolV("opaque", f"hasattr({nf.show(it.to_nf(args[0]), 120)}, {nm!r})")
 
 
@@ -2804,6 +2830,41 @@ def _h_delattr(it, args, kwargs, bound, node, qual):
 
 
 def _h_isinstance(it, args, kwargs, bound, node, qual):
+    """isinstance(x, T): decided where the abstract value has a definite Python type (None, a string, a list / tuple / dict
+    literal, an object of a package class); the type of a symbolic number or array stays an open question"""
+    if len(args) == 2:
+        x, t = args
+        names = []
+        for c in (t.items if isinstance(t, TupV) else [t]):
+            if isinstance(c, ExtV):
+                names.append(c.qual.split(".")[-1])
+            elif isinstance(c, ClassV):
+                names.append(c.info)
+            else:
+                names = None
+                break
+        if names is not None:
+            simple = {n for n in names if isinstance(n, str)}
+            if isinstance(x, NoneV):
+                return BoolV("const", bool(simple & {"NoneType", "object"}))
+            if isinstance(x, Num):
+                a_ = it.single_atom(x.nf)
+                if a_ is not None and a_[0] == "sym" and a_[1] in getattr(it, "not_none", ()) and simple & {"Real", "Number", "object"}:
+                    # a number supplied by the rule: every real scalar type (Python and numpy) is a numbers.Real
+                    return BoolV("const", True)
+            if isinstance(x, StrV):
+                return BoolV("const", bool(simple & {"str", "object"}))
+            if isinstance(x, DictV):
+                return BoolV("const", bool(simple & {"dict", "Mapping", "MutableMapping", "object"}))
+            if isinstance(x, TupV) and not x.arr and not x.rowview:
+                own = {"list", "Sequence", "MutableSequence", "Iterable", "object"} if x.is_list else {"tuple", "Sequence", "Iterable", "object"}
+                return BoolV("const", bool(simple & own))
+            if isinstance(x, Inst):
+                mro = x.cls.mro()
+                if any(n in mro for n in names if not isinstance(n, str)):
+                    return BoolV("const", True)
+                if not simple - {"int", "float", "complex", "str", "bytes", "list", "tuple", "dict", "set", "bool", "ndarray", "Real", "Number", "Integral", "floating", "integer", "NoneType"}:
+                    return BoolV("const", False)
     return BoolV("opaque", f"isinstance({nf.show(it.to_nf(args[0]), 120)}, ...)")
 
 
